@@ -67,10 +67,21 @@ type concStats struct {
 	runs, ops, compactions, yields int
 }
 
+// concSyncMode: the next concRun opens the database in sync-after-every-write mode
+var concSyncMode bool
+
 func concRun(r *rng, fsys fs.FileSystem, dir string, nGor, nKeys, opsPer int, withClose bool, res *Result, name string, st *concStats, cold int) {
 	seed := uint32(r.next())
 	pogreb.VerifSeedOverride = &seed
 	o := &pogreb.Options{FileSystem: fsys}
+	if concSyncMode {
+		// sync-after-every-write mode; on the harness file system a flush takes a little while, as on
+		// a device
+		o.BackgroundSyncInterval = -1
+		if t, ok := fsys.(*tfs.FS); ok {
+			t.SyncDelay = []time.Duration{150 * time.Microsecond, 2 * time.Millisecond, 5 * time.Millisecond}[r.intn(3)]
+		}
+	}
 	pogreb.VerifSetThresholds(o, uint32([]int{600, 900, 2048}[r.intn(3)]), 512, math.Float32frombits(fragBits(0.0001)))
 	db, err := pogreb.Open(dir, o)
 	if err != nil {
@@ -410,7 +421,7 @@ func concGrow(r *rng, fsys fs.FileSystem, dir string, nKeys, nReaders int, res *
 }
 
 func genC07(r *rng, tier string, res *Result) {
-	n := scale(tier, 40, 1500)
+	n := scale(tier, 40, 400)
 	st := &concStats{}
 	tmp, _ := os.MkdirTemp("", "pgh-c07-")
 	defer os.RemoveAll(tmp)
@@ -425,12 +436,17 @@ func genC07(r *rng, tier string, res *Result) {
 		if i%2 == 1 {
 			cold, ops = 6+r.intn(8), 150+r.intn(150)
 		}
+		concSyncMode = i%4 == 2
+		if concSyncMode {
+			res.Tags["runs_in_sync_after_every_write_mode"]++
+		}
 		concRun(r, fsys, dir, 2+r.intn(6), 2+r.intn(4), ops, false, res, fmt.Sprintf("C07/%d", i), st, cold)
 		res.Cases++
 		res.Distinct++
 	}
+	concSyncMode = false
 	growReads := 0
-	for i := 0; i < scale(tier, 8, 100); i++ {
+	for i := 0; i < scale(tier, 8, 40); i++ {
 		var fsys fs.FileSystem = tfs.New()
 		dir := "db"
 		if i%2 == 1 {
@@ -453,7 +469,7 @@ func genC07(r *rng, tier string, res *Result) {
 // The race detector part needs a binary built with -race: `pgh-race check C10race`.
 func genC10(r *rng, tier string, res *Result) {
 	debug.SetPanicOnFault(true)
-	n := scale(tier, 30, 800)
+	n := scale(tier, 30, 240)
 	st := &concStats{}
 	tmp, _ := os.MkdirTemp("", "pgh-c10-")
 	defer os.RemoveAll(tmp)
@@ -478,7 +494,7 @@ func genC10(r *rng, tier string, res *Result) {
 	}
 	// readers of a large value (a copy that takes milliseconds) on the memory-mapped file system racing
 	// with Close and with Delete + Compact: no memory fault
-	for i := 0; i < scale(tier, 6, 60) && !raceOn; i++ { // (the race-detector build runs the small-value stress only)
+	for i := 0; i < scale(tier, 6, 20) && !raceOn; i++ { // (the race-detector build runs the small-value stress only)
 		if fault := c14Race(r, filepath.Join(tmp, fmt.Sprintf("big%d", i)), i%2 == 1); fault != "" {
 			what := "Close"
 			if i%2 == 1 {
